@@ -33,10 +33,13 @@ def wellformed_problems(txt):
     if not txt.endswith('\n'):
         bad.append('no-final-newline')
     comments = [l for l in lines if l.startswith('#')]
-    if len(comments) != 7:
-        bad.append('header-lines=%d' % len(comments))
     if not any(l.startswith('#h') for l in comments) or not any(l.startswith('#f') for l in comments):
         bad.append('missing-#h/#f')
+    hnames = next((l.split('\t')[1:] for l in comments if l.startswith('#h')), COLUMNS)
+    for need in COLUMNS:
+        if need not in hnames:
+            bad.append('missing-column=%s' % need)
+    nfields = len(hnames)
     seen_data = False
     for l in lines:
         if l.startswith('#'):
@@ -46,7 +49,7 @@ def wellformed_problems(txt):
         if l == '':
             continue
         seen_data = True
-        if len(l.split('\t')) != 15:
+        if len(l.split('\t')) != nfields:
             bad.append('field-count=%d' % len(l.split('\t')))
     return bad
 
